@@ -123,10 +123,10 @@ def impl(op: str) -> str:
             return "ok %s %s %s" % (hx(fl), show_list(hashes, hx), show_list(ids, hx))
         if k == "pmt_verify":
             total, hashes, flags, root = int(a[1]), parse_hashes(a[2]), unhx(a[3]), unhx(a[4])
-            d = BTC.message.parse("merkleblock", merkleblock_bytes(total, hashes, flags, root))
+            d = M.limited(BTC.message.parse, "merkleblock", merkleblock_bytes(total, hashes, flags, root))
             return "ok " + show_list(d["tx_hashes"], hx)
         if k == "block_rt":
-            blk = NET[a[1]].block.from_bin(bytes.fromhex(a[2]))
+            blk = M.limited(NET[a[1]].block.from_bin, bytes.fromhex(a[2]))
             return "ok %s %s %d" % (blk.as_bin().hex(), blk.id(), len(blk.txs))
         if k == "header_rt":
             f = io.BytesIO(unhx(a[1]))
@@ -134,6 +134,8 @@ def impl(op: str) -> str:
             g = io.BytesIO()
             blk.stream_header(g)
             return "ok %s %s %d" % (g.getvalue().hex(), blk.id(), len(f.getvalue()) - f.tell())
+    except M.Hang:
+        return "err Hang"
     except Exception as e:  # noqa: BLE001
         return "err " + type(e).__name__
     return "bad-op"
